@@ -326,6 +326,7 @@ func Run(r *core.Run) {
 	e.schnorrTasks()
 	e.paillierGuardTasks()
 	e.facTasks()
+	e.curveOrderPhase()
 	e.mtaTasks()
 	e.paillierProofTasks()
 	e.modTasks()
